@@ -99,14 +99,5 @@ def main():
 
 
 def replay(path):
-    d = json.load(open(path))
-    run = Run("C19")
-    ok, msg = ensure_driver()
-    bins = build(run)
-    case = Case.from_json(d["case"]) if "case" in d else Case.from_json(d["first_differing_case"])
-    diff = Differential(run, bins, lambda c: "bitmap_model_entry", lambda c: "bitmap_spec_entry")
-    impl, model, spec = diff.eval_cases([case])
-    print("impl ", impl); print("model", model); print("spec ", spec)
-    bad = any(v[0] != spec[0] for v in impl.values())
-    print("REPRODUCED" if bad else "not reproduced")
-    return 1 if bad else 0
+    run = Run("C19"); ensure_driver(); bins = build(run)
+    return generic_replay(Differential(run, bins, lambda c: "bitmap_model_entry", lambda c: "bitmap_spec_entry"), path)
